@@ -914,7 +914,9 @@ func main() {
 	icpt, icptBnd := mk("c14icpt", "icpt_case", "icpt"), mk("c14icptbnd", "icpt_case", "icpt")
 	icpts := []*cq.Set{icpt, mk("c14icpt2", "icpt_case", "icpt")}
 	wfail := mk("c14wfail", "icptf_case", "icptf")
-	all := append(append([]*cq.Set{}, encs...), encBig, encBnd, icpts[0], icpts[1], icptBnd, wfail)
+	long := &cq.Set{Name: "c14long", Import: "IV.Check.C14Check", CaseType: "long_case",
+		Checks: []string{"long_mismatches", "long_spec_failures"}}
+	all := append(append([]*cq.Set{}, encs...), encBig, encBnd, icpts[0], icpts[1], icptBnd, wfail, long)
 	load := func(file, bucket string) {
 		var probe map[string]interface{}
 		if set := cq.LoadReplay(file, &probe); len(set) >= 8 && set[:8] == "c14wfail" {
@@ -924,6 +926,10 @@ func main() {
 				c.Fail = append(c.Fail, make([][]int, len(c.Writes)-len(c.Fail))...)
 			}
 			wfail.Cases = append(wfail.Cases, runIcpt(c).toFailCase(bucket))
+		} else if len(set) >= 7 && set[:7] == "c14long" {
+			var c longCase
+			cq.LoadReplay(file, &c)
+			long.Cases = append(long.Cases, runLong(c).toCase(bucket))
 		} else if len(set) >= 7 && set[:7] == "c14icpt" {
 			var c icptCase
 			cq.LoadReplay(file, &c)
@@ -972,6 +978,17 @@ func main() {
 	for i := 0; i < nw; i++ {
 		c, b := genIcptFail(r)
 		wfail.Cases = append(wfail.Cases, runIcpt(c).toFailCase(b...))
+	}
+	// long runs through one encoder, generated last (the PRNG stream of the sets above is unchanged):
+	// one shape / changing shapes across two wraps of the FEC sequence number / through the interceptor
+	nl := o.Scale(3, 12)
+	for i := 0; i < nl; i++ {
+		wraps := 1
+		if i%3 == 1 {
+			wraps = 2
+		}
+		c, b := genLong(r, i%3, wraps)
+		long.Cases = append(long.Cases, runLong(c).toCase(b...))
 	}
 	cq.Write(o, "enc: histories of 1..5 EncodeFec calls through one encoder (batches of 1..30 packets, boundary batches of "+
 		"15/16/45/46/47/63/64/65/108/109/110/111; n in {0,1,k-1,k,k+1,110,>110,1..6}; CSRC, one-/two-byte extensions, padding 1..255 (PaddingSize, inside the payload with P bit, deprecated field, PaddingSize without P bit), "+
